@@ -100,3 +100,97 @@ def _make_direct(wrapper, liftname, n_fns, props):
 
 
 SPECS.append(_make_direct('while_loop', 'while_loop', 2, ('C05',)))
+
+
+# ---- nn.cond / nn.switch: predicate / index, branches, module, operands and BOTH filters reach the lifted transform ----------
+from pyvc.values import StarOf as _StarOf, PyTuple as _PyTuple
+Operands = opaque('Operands', is_str=False)
+Operands.star_opaque = True
+Branches = SeqOf(Opt)
+
+
+def _rec_direct(expect_tag):
+  def rec(ex, args, kw):
+    ex.ghost['fw:n'] = ex.ghost.get('fw:n', 0) + 1
+    ex.ghost['fw:transform'] = bool(args) and args[0] is expect_tag
+    ex.ghost['fw:fns'] = ex.coerce(args[1], Branches) if not isinstance(ex.deref(args[1]), _PyTuple) else ex.seq_from_items(list(ex.deref(args[1])), Opt)
+    ex.ghost['fw:mdl'] = args[2]
+    star = lambda x: isinstance(x, tuple) and not isinstance(x, _PyTuple) and len(x) == 2 and x[0] == '*'
+    ex.ghost['fw:first'] = ex.coerce(args[3], Opt) if len(args) > 3 and not star(args[3]) else SV(Opt, Opt.literal('<missing>'))
+    rest = args[4:]
+    ex.ghost['fw:operands_ok'] = len(rest) == 1 and star(rest[0])
+    ex.ghost['fw:operands'] = rest[0][1] if (len(rest) == 1 and star(rest[0])) else ex.fresh(Operands, 'other')
+    for k in ('variables', 'rngs', 'n_branches'):
+      ex.ghost['fw:' + k] = kw[k] if k in kw else SV(Opt, Opt.literal('<not passed: the default applies>'))
+    ex.ghost['fw:unknown'] = not [k for k in kw if k not in ('variables', 'rngs', 'n_branches')]
+    return ex.fresh(Opt, 'result')
+  return rec
+
+
+_cond_tag, _sw_tag = TypeTag('_cond_wrapper'), TypeTag('_switch_wrapper')
+COMMON = ["ghost('fw:n') == 1", "ghost('fw:transform')", "ghost('fw:mdl') == mdl", "ghost('fw:operands_ok')", "ghost('fw:operands') == operands",
+          "ghost('fw:variables') == variables", "ghost('fw:rngs') == rngs", "ghost('fw:unknown')"]
+nn_cond = function(
+  f'{T}::cond', params=[('pred', Opt), ('true_fun', Opt), ('false_fun', Opt), ('mdl', Opt), ('operands', Operands), ('variables', Opt), ('rngs', Opt)], returns=ANY,
+  ensures=COMMON + ["ghost('fw:first') == pred", "len(ghost('fw:fns')) == 2 and ghost('fw:fns')[0] == true_fun and ghost('fw:fns')[1] == false_fun"],
+  bindings={'lift_direct_transform': Handler('lift_direct_transform', _rec_direct(_cond_tag), 'records how the lifted transform is parameterised'), '_cond_wrapper': _cond_tag},
+  props=('C05',))
+nn_switch = function(
+  f'{T}::switch', params=[('index', Opt), ('branches', Branches), ('mdl', Opt), ('operands', Operands), ('variables', Opt), ('rngs', Opt)], returns=ANY,
+  ensures=COMMON + ["ghost('fw:first') == index", "len(ghost('fw:fns')) == len(branches)",
+                    "forall(Int, lambda i: implies(0 <= i and i < len(branches), ghost('fw:fns')[i] == branches[i]))", "ghost('fw:n_branches') == len(branches)"],
+  bindings={'lift_direct_transform': Handler('lift_direct_transform', _rec_direct(_sw_tag), 'records how the lifted transform is parameterised'), '_switch_wrapper': _sw_tag},
+  props=('C05',))
+
+
+# the two module-level wrappers that lift_direct_transform calls with (branch functions..., scope, pred / index, *operands)
+def _rec_lift(names):
+  def rec(ex, args, kw):
+    star = lambda x: isinstance(x, tuple) and not isinstance(x, _PyTuple) and len(x) == 2 and x[0] == '*'
+    ex.ghost['lw:n'] = ex.ghost.get('lw:n', 0) + 1
+    fixed = [a for a in args if not star(a)]
+    stars = [a for a in args if star(a)]
+    ex.ghost['lw:shape'] = len(fixed) == len(names) and len(stars) == 1 and star(args[-1])
+    for nm, v in zip(names, fixed):
+      ex.ghost['lw:' + nm] = v
+    ex.ghost['lw:operands'] = stars[0][1] if stars else ex.fresh(Operands, 'none')
+    for k in ('variables', 'rngs'):
+      ex.ghost['lw:' + k] = kw[k] if k in kw else SV(Opt, Opt.literal('<not passed: the default applies>'))
+    ex.ghost['lw:unknown'] = not [k for k in kw if k not in ('variables', 'rngs')]
+    return ex.fresh(Opt, 'result')
+  return rec
+
+
+cond_wrapper = function(
+  f'{T}::_cond_wrapper', params=[('t_fn', Opt), ('f_fn', Opt), ('scope', Opt), ('pred', Opt), ('ops', Operands), ('variables', Opt), ('rngs', Opt)], returns=ANY,
+  ensures=["ghost('lw:n') == 1", "ghost('lw:shape')", "ghost('lw:pred') == pred", "ghost('lw:true_fun') == t_fn", "ghost('lw:false_fun') == f_fn", "ghost('lw:scope') == scope",
+           "ghost('lw:operands') == ops", "ghost('lw:variables') == variables", "ghost('lw:rngs') == rngs", "ghost('lw:unknown')"],
+  bindings={'lift.cond': Handler('lift.cond', _rec_lift(['pred', 'true_fun', 'false_fun', 'scope']), 'records how lift.cond is called')},
+  props=('C05',))
+
+
+def _rec_switch(ex, args, kw):
+  star = lambda x: isinstance(x, tuple) and not isinstance(x, _PyTuple) and len(x) == 2 and x[0] == '*'
+  ex.ghost['sw:n'] = ex.ghost.get('sw:n', 0) + 1
+  ex.ghost['sw:shape'] = len(args) == 4 and star(args[3]) and not any(star(a) for a in args[:3])
+  ex.ghost['sw:index'] = ex.coerce(args[0], Opt)
+  ex.ghost['sw:branches'] = ex.coerce(args[1], Branches)
+  ex.ghost['sw:scope'] = ex.coerce(args[2], Opt)
+  ex.ghost['sw:operands'] = ex.coerce(args[3][1], Branches) if len(args) == 4 and star(args[3]) else ex.fresh(Branches, 'none')
+  for k in ('variables', 'rngs'):
+    ex.ghost['sw:' + k] = kw[k] if k in kw else SV(Opt, Opt.literal('<not passed: the default applies>'))
+  ex.ghost['sw:unknown'] = not [k for k in kw if k not in ('variables', 'rngs')]
+  return ex.fresh(Opt, 'result')
+
+
+switch_wrapper = function(
+  f'{T}::_switch_wrapper', params=[('args', Branches), ('variables', Opt), ('rngs', Opt), ('n_branches', INT)], returns=ANY,
+  requires=['0 <= n_branches', 'len(args) >= n_branches + 2'],
+  ensures=["ghost('sw:n') == 1", "ghost('sw:shape')", "ghost('sw:unknown')", "ghost('sw:variables') == variables", "ghost('sw:rngs') == rngs",
+           # the first n_branches arguments are the branches, then the scope, then the index, the rest are the operands
+           "len(ghost('sw:branches')) == n_branches and forall(Int, lambda i: implies(0 <= i and i < n_branches, ghost('sw:branches')[i] == args[i]))",
+           "ghost('sw:scope') == args[n_branches] and ghost('sw:index') == args[n_branches + 1]",
+           "len(ghost('sw:operands')) == len(args) - n_branches - 2 and forall(Int, lambda i: implies(0 <= i and i < len(args) - n_branches - 2, ghost('sw:operands')[i] == args[n_branches + 2 + i]))"],
+  bindings={'lift.switch': Handler('lift.switch', _rec_switch, 'records how lift.switch is called')},
+  props=('C05',))
+switch_wrapper.vararg = 'args'
